@@ -102,11 +102,19 @@ func c18GenCfg(r *rand.Rand) (*Config, uint64) {
 	case 5:
 		cfg.MemorySpikePercentage = 101
 	}
-	// total memory: below 2^57 (DESIGN §C18: larger totals overflow percentage*total and are excluded by hypothesis)
+	// total memory
 	totals := []uint64{0, 1, 19, 50, 99, 100, 101, 1 << 20, 1<<20 + 12345, 1 << 30, 3 << 32, 1 << 40, 1<<57 - 1}
 	total := totals[r.IntN(len(totals))]
 	if r.IntN(3) == 0 {
 		total = r.Uint64N(1 << 57)
+	}
+	// the whole uint64 range (the repaired percentOf never overflows; round 1 stopped at 2^57)
+	if r.IntN(6) == 0 {
+		bigs := []uint64{0x7FFFFFFFFFFF0000, 1<<63 - 1, 1<<64 - 1, 1 << 57, 184467440737095516, 184467440737095517, 1 << 62}
+		total = bigs[r.IntN(len(bigs))]
+		if r.IntN(3) == 0 {
+			total = 1<<57 + r.Uint64N(1<<64-1-1<<57)
+		}
 	}
 	return cfg, total
 }
@@ -149,6 +157,9 @@ func c18GenSteps(r *rand.Rand, cfg *Config, limit, spike uint64) []c18Step {
 	pts := []uint64{0, 1, soft - 1, soft, soft + 1, limit - 1, limit, limit + 1, limit * 2, ^uint64(0), soft / 2}
 	pick := func() uint64 {
 		if r.IntN(6) == 0 {
+			if limit >= 1<<62 { // limit*2+2 would wrap (limits near 2^64 only occur with the whole-range totals)
+				return r.Uint64()
+			}
 			return r.Uint64N(limit*2 + 2)
 		}
 		return pts[r.IntN(len(pts))]
